@@ -68,7 +68,10 @@ func (sm *SourceMap) Add(src Expression, tgt Range) (updatedFrom Position) {
 		}
 
 		// Process the cols.
-		for _, r := range line {
+		for i := 0; i < len(line); {
+			// A byte that is not valid UTF-8 is one column wide, as it is one byte in both files.
+			_, rlen := utf8.DecodeRuneInString(line[i:])
+			i += rlen
 			if _, ok := sm.SourceLinesToTarget[srcLine]; !ok {
 				sm.SourceLinesToTarget[srcLine] = make(map[uint32]Position)
 			}
@@ -79,11 +82,6 @@ func (sm *SourceMap) Add(src Expression, tgt Range) (updatedFrom Position) {
 			}
 			sm.TargetLinesToSource[tgtLine][tgtCol] = NewPosition(srcIndex, srcLine, srcCol)
 
-			// Ignore invalid runes.
-			rlen := utf8.RuneLen(r)
-			if rlen < 0 {
-				rlen = 1
-			}
 			srcCol += uint32(rlen)
 			tgtCol += uint32(rlen)
 			srcIndex += int64(rlen)
